@@ -13,6 +13,7 @@ package main
 import (
 	"bufio"
 	"encoding/hex"
+	"errors"
 	"fmt"
 	"math"
 	"math/big"
@@ -241,6 +242,12 @@ func gen(seed uint64, tier string) {
 	for _, g := range corpus {
 		emit(g)
 	}
+	// pointer-typed geometries: not listed in Encode's type switch ("other types are rejected, not mis-encoded")
+	for _, g := range corpus[:16] {
+		fmt.Fprintf(out, "encp %s\n", vproto.GeomToks(g))
+	}
+	fmt.Fprintf(out, "encp %s\n", vproto.GeomToks(geom.MultiPoint{P(1, 2)}))
+	fmt.Fprintf(out, "encp %s\n", vproto.GeomToks(geom.GeometryCollection{P(1, 2)}))
 	for _, x := range specials {
 		emit(P(x, -x))
 		emit(geom.LineString{P(x, 1), P(2, x)})
@@ -254,6 +261,8 @@ func gen(seed uint64, tier string) {
 			emit(cfg{nonFinite: true}.geom(r, r.Intn(5)))
 		case i%20 == 19:
 			emit(cfg{}.geom(r, 5+r.Intn(3)))
+		case i%100 == 16:
+			fmt.Fprintf(out, "encp %s\n", vproto.GeomToks(guarded.geom(r, r.Intn(7))))
 		default:
 			emit(guarded.geom(r, r.Intn(5)))
 		}
@@ -417,6 +426,39 @@ func renderings(g geom.Geom, b *strings.Builder) {
 	walk(g)
 }
 
+// pointerTo returns a pointer to the value held in g (a geom.Geom of a type wkt.Encode's switch does not list)
+func pointerTo(g geom.Geom) geom.Geom {
+	switch t := g.(type) {
+	case geom.Point:
+		return &t
+	case geom.MultiPoint:
+		return &t
+	case geom.LineString:
+		return &t
+	case geom.MultiLineString:
+		return &t
+	case geom.Polygon:
+		return &t
+	case geom.MultiPolygon:
+		return &t
+	case geom.GeometryCollection:
+		return &t
+	}
+	return g
+}
+
+// errReport: "err <kind> <Type.String() | nil> x<hex of Error()> <len of the returned bytes>"
+func errReport(err error, nbuf int) string {
+	var ue *wkt.UnsupportedGeometryError
+	if errors.As(err, &ue) {
+		if ue.Type == nil {
+			return fmt.Sprintf("err unsupported nil x %d", nbuf) // Error() would dereference the nil Type
+		}
+		return fmt.Sprintf("err unsupported %s x%s %d", ue.Type.String(), hex.EncodeToString([]byte(err.Error())), nbuf)
+	}
+	return fmt.Sprintf("err other - x%s %d", hex.EncodeToString([]byte(err.Error())), nbuf)
+}
+
 func impl() {
 	vproto.Lines(func(line string, out *bufio.Writer) {
 		p := vproto.NewParser(line)
@@ -424,14 +466,22 @@ func impl() {
 		var tab strings.Builder
 		pan := vproto.Safe(func() {
 			switch p.Next() {
-			case "enc":
+			case "enc", "encp":
 				g := p.Geom()
 				renderings(g, &tab)
-				buf, err := wkt.Encode(g)
+				before := vproto.GeomToks(g)
+				arg := g
+				if strings.HasPrefix(line, "encp ") {
+					arg = pointerTo(g) // *geom.Point, *geom.LineString, ...: geometry types Encode does not list
+				}
+				buf, err := wkt.Encode(arg)
 				if err != nil {
-					res = "err"
+					res = errReport(err, len(buf))
 				} else {
 					res = "ok x" + hex.EncodeToString(buf)
+				}
+				if vproto.GeomToks(g) != before {
+					res = "inputmodified " + res
 				}
 			case "batch":
 				n := p.Int()
